@@ -4,6 +4,7 @@ usage: matrix.py [--jobs 2] [--only name1,name2] [--props C01,...] [--tier quick
 import json, os, subprocess, sys, glob
 from concurrent.futures import ThreadPoolExecutor
 V = os.path.dirname(os.path.dirname(os.path.abspath(__file__)))
+SD = os.environ.get("SEED_DIR", "seeded")
 a = sys.argv[1:]
 def opt(n, d):
     return a[a.index(n) + 1] if n in a else d
@@ -11,7 +12,7 @@ jobs = int(opt("--jobs", "2"))
 tier = opt("--tier", "quick")
 seed = opt("--seed", "1")
 props = opt("--props", ",".join("C%02d" % i for i in range(1, 17)))
-names = sorted(os.path.basename(os.path.dirname(p)) for p in glob.glob(V + "/seeded/*/meta.json"))
+names = sorted(os.path.basename(os.path.dirname(p)) for p in glob.glob(V + "/" + SD + "/*/meta.json"))
 if "--only" in a:
     names = opt("--only", "").split(",")
 def one(n):
@@ -23,8 +24,8 @@ if "--report-only" not in a:
 # report
 allp = ["C%02d" % i for i in range(1, 17)]
 rows = []
-for n in sorted(os.path.basename(os.path.dirname(p)) for p in glob.glob(V + "/seeded/*/meta.json")):
-    m = json.load(open(V + "/seeded/%s/meta.json" % n))
+for n in sorted(os.path.basename(os.path.dirname(p)) for p in glob.glob(V + "/" + SD + "/*/meta.json")):
+    m = json.load(open(V + "/" + SD + "/%s/meta.json" % n))
     res = {}
     runs = m.get("checks_run", {})
     # scaled matrix runs first, then full-budget runs of the final code (key suffix /final) override
@@ -39,7 +40,7 @@ for n in sorted(os.path.basename(os.path.dirname(p)) for p in glob.glob(V + "/se
         c = "·" if x is None else ("**V**" if x["exit"] == 1 else ("inc" if x["exit"] == 2 else "–"))
         cells.append(c + ("ᶠ" if x is not None and x.get("full") else ""))
     rows.append("| %s | %s | %s |" % (n, m["breaks_property"], " | ".join(cells)))
-with open(V + "/seeded/MATRIX.md", "w") as f:
+with open(V + "/" + SD + "/MATRIX.md", "w") as f:
     f.write("# Seeded changes x checks (quick tier)\n\n"
             "**V** = check exits 1 with a VIOLATION line, – = check exits 0 (held), inc = inconclusive (exit 2), · = not run.\n"
             "Cells come from runs with a fifth of the quick budget and the dbg/rel variants only (`VERIF_SCALE=0.2 VERIF_ONLY_DBG=1`);\n"
@@ -48,4 +49,4 @@ with open(V + "/seeded/MATRIX.md", "w") as f:
             "changed builder rejected or panicked on valid collections, which only C10 (and C08) treat as a refuting event.\n\n")
     f.write("| change | breaks | " + " | ".join(allp) + " |\n|---|---|" + "---|" * 16 + "\n")
     f.write("\n".join(rows) + "\n")
-print(open(V + "/seeded/MATRIX.md").read())
+print(open(V + "/" + SD + "/MATRIX.md").read())
